@@ -379,6 +379,105 @@ def w_addr_indep(part):
     return acc.res()
 
 
+def diverse_frames():
+    """frames with different field values for every format a decoder may be restricted to (one aircraft)."""
+    aa = 0x4840D6
+    # two frames with different field values for every format a decoder may be restricted to
+    return related_frames() + [
+        F.short_ap(4, (1 << 24) | (5 << 19) | (6 << 15) | (1 << 13) | 0x1838, aa), F.short_ap(4, (2 << 24) | (17 << 19) | (9 << 15) | (2 << 13) | 0x0C10, aa),
+        F.short_ap(5, (3 << 24) | (4 << 19) | (3 << 15) | (1 << 13) | 0x0AAA, aa), F.short_ap(5, (0 << 24) | (21 << 19) | (12 << 15) | (3 << 13) | 0x1555, aa),
+        F.df11(aa, 5, 0), F.df11(aa, 2, 37), F.short_ap(0, 0x0001838, aa), F.short_ap(0, 0x0600C10, aa),
+        F.long_ap(16, 0x0001838, 0x12345678, aa), F.long_ap(16, 0x0400C10, 0x0FEDCBA9876543, aa),
+        F.long_ap(21, (3 << 24) | 0x0AAA, BR.valid("BDS40")[30], aa), F.long_ap(20, (1 << 24) | 0x0C10, BR.valid("BDS20")[0], aa),
+        F.long_ap(20, 0x0001838, BR.valid("BDS10")[0], aa), F.long_ap(21, 0x0555, BR.valid("BDS17")[1], aa),
+        F.long_ap(20, 0x0001838, BR.valid("BDS44")[50], aa), F.long_ap(20, 0x0001838, BR.valid("BDS45")[20], aa)]
+
+
+def _in_child(fn):
+    """run fn() in a forked child that starts from this process' (pristine) state; returns its picklable result."""
+    import os
+    import pickle
+    r, w = os.pipe()
+    pid = os.fork()
+    if pid == 0:
+        try:
+            os.close(r)
+            try:
+                out = ("ok", fn())
+            except BaseException as e:  # noqa: BLE001
+                out = ("exc", repr(e))
+            with os.fdopen(w, "wb") as fh:
+                pickle.dump(out, fh)
+        finally:
+            os._exit(0)
+    os.close(w)
+    with os.fdopen(r, "rb") as fh:
+        data = fh.read()
+    os.waitpid(pid, 0)
+    out = pickle.loads(data)
+    if out[0] != "ok":
+        raise RuntimeError("child failed: " + out[1])
+    return out[1]
+
+
+def w_hist2(part):
+    """every history of two DIFFERENT callables from a pristine process: callable g is run on every frame in a fresh
+    forked copy of the pristine interpreter, then every callable f on every frame; each answer of f must equal the answer
+    f gives in a pristine interpreter in which only f itself ever ran (shared tables mutated by another function,
+    lazily filled caches keyed on something other than the frame)."""
+    global TABLE
+    if TABLE is None:
+        TABLE = {t[0]: t for t in table()}
+    acc = Acc()
+    frames = diverse_frames()
+    names = [(name, extra) for name, f, extras, kind, guard in table() for extra in extras if name != "tell"]
+    pairs = [("adsb.position", ()), ("adsb.airborne_position", ()), ("adsb.surface_position", ())]
+
+    def run_all(who):
+        out = {}
+        for name, extra in who:
+            f = TABLE[name][1]
+            for i, m in enumerate(frames):
+                out[(name, extra, i)] = repr(call(f, m, *extra))
+        return out
+
+    def first(g):
+        name, extra = g
+        if name in ("adsb.position", "adsb.airborne_position", "adsb.surface_position"):
+            f = getattr(pms.adsb, name.split(".")[1])
+            for i in range(0, len(frames) - 1):
+                call(f, frames[i], frames[i + 1], 10, 11, *([52.0, 4.0] if "surface" in name or i % 2 else []))
+        else:
+            f = TABLE[name][1]
+            for m in frames:
+                call(f, m, *extra)
+
+    base = {}
+    for nm in names:
+        base.update(_in_child(lambda nm=nm: run_all([nm])))
+    if isinstance(part, tuple):     # replay of one (first, second) pair
+        firsts = [g for g in names + pairs if [g[0], list(g[1])] == part[0]]
+        names = [nm for nm in names if nm[0] == part[1]]
+    else:
+        firsts = (names + pairs)[part::16]
+    for g in firsts:
+        def after_g(g=g):
+            first(g)
+            got_ = {}
+            for nm in names:        # one grandchild per second callable: its history is exactly (g, f)
+                got_.update(_in_child(lambda nm=nm: run_all([nm])))
+            return got_
+        got = _in_child(after_g)
+        acc.n += len(got)
+        for key, v in got.items():
+            if v != base[key]:
+                acc.bad("%s:answer_depends_on_which_other_decoder_ran_before" % key[0],
+                        {"kind": "hist2", "first": [g[0], list(g[1])], "name": key[0], "extra": list(key[1]), "msg": frames[key[2]]})
+        acc.out.add(("hist2", g[0], g[1]))
+    acc.cov["two_call_histories_from_pristine"] = len(firsts) * len(names)
+    return acc.res()
+
+
 def w_interleave(part):
     """re-entrancy under a preemption bound of 1 (engine.interleave): for every callable, a call on one frame is suspended
     before each of its source lines in turn while a complete call on ANOTHER frame of the same aircraft runs (the same
@@ -390,16 +489,7 @@ def w_interleave(part):
         TABLE = {t[0]: t for t in table()}
     acc = Acc()
     acc.cov["schedules"] = 0
-    aa = 0x4840D6
-    # two frames with different field values for every format a decoder may be restricted to
-    frames = related_frames() + [
-        F.short_ap(4, (1 << 24) | (5 << 19) | (6 << 15) | (1 << 13) | 0x1838, aa), F.short_ap(4, (2 << 24) | (17 << 19) | (9 << 15) | (2 << 13) | 0x0C10, aa),
-        F.short_ap(5, (3 << 24) | (4 << 19) | (3 << 15) | (1 << 13) | 0x0AAA, aa), F.short_ap(5, (0 << 24) | (21 << 19) | (12 << 15) | (3 << 13) | 0x1555, aa),
-        F.df11(aa, 5, 0), F.df11(aa, 2, 37), F.short_ap(0, 0x0001838, aa), F.short_ap(0, 0x0600C10, aa),
-        F.long_ap(16, 0x0001838, 0x12345678, aa), F.long_ap(16, 0x0400C10, 0x0FEDCBA9876543, aa),
-        F.long_ap(21, (3 << 24) | 0x0AAA, BR.valid("BDS40")[30], aa), F.long_ap(20, (1 << 24) | 0x0C10, BR.valid("BDS20")[0], aa),
-        F.long_ap(20, 0x0001838, BR.valid("BDS10")[0], aa), F.long_ap(21, 0x0555, BR.valid("BDS17")[1], aa),
-        F.long_ap(20, 0x0001838, BR.valid("BDS44")[50], aa), F.long_ap(20, 0x0001838, BR.valid("BDS45")[20], aa)]
+    frames = diverse_frames()
     names = [(name, extra) for name, f, extras, kind, guard in table() for extra in extras[:1] if name != "tell"]
     src = loader.SRC
     for name, extra in names[part::8]:
@@ -714,6 +804,8 @@ def w_any(t):
         return w_addr_indep(t[1])
     if t[0] == "t":
         return w_interleave(t[1])
+    if t[0] == "h":
+        return w_hist2(t[1])
     return w_dispatch(None) if t[0] == "d" else w_frames(t[1])
 
 
@@ -731,6 +823,7 @@ def run(ctx):
     tasks += [("o", part) for part in range(4)]
     tasks += [("i", part) for part in range(4)]
     tasks += [("t", part) for part in range(8)]
+    tasks += [("h", part) for part in range(16)]
     tasks += [("k", (tc, part)) for tc in (19, 29, 31, 28, 5, 11, 4) for part in range(4)]
     tasks += [("c", df) for df in ((0, 4, 5, 11, 16, 17, 18, 20, 21, 24) if not ctx.thorough else range(32))]
     ctx.pmap(w_any, tasks)
@@ -748,6 +841,8 @@ def replay(case):
         return [("adsb.%s:%s:breakpoint_latitude" % (case["fn"], r[1] if r[0] == "exc" else "malformed_result"), case)] if bad else []
     if case["kind"] == "again":
         return stateless(case["msg"])
+    if case["kind"] == "hist2":
+        return [(s_, c_) for s_, c_ in w_hist2((case["first"], case["name"]))["viols"]]
     if case["kind"] == "interleave":
         out = []
         for part in range(8):
